@@ -154,6 +154,17 @@ add("C07", "other",
     "the grammar model with parser.Parse on every layout and on ~1700 arbitrary (mostly rejected) inputs.",
     COMMON_NOTE, "Coq printer + grammar model with round-trip theorems; differential run of parser.Parse against tree, printer and grammar model")
 
+add("C18", "other",
+    "Partial. Proved in Coq about the memory operations of the VM model (PropC18.v): a written local is read back, a write "
+    "touches exactly one stack cell, growth keeps every cell, Push/Pop and PushFrame/PopFrame restore the frame structure, a new "
+    "frame leaves every lower cell alone. Mem18.v defines the whole history semantics twice (G: the Go algorithm with aliases and "
+    "recycled clones; A: activations owning their variables). Decided each run: ~300 generated histories (nested calls with frame "
+    "widths 0..1000 across the growth steps, depth up to 40/1000, random mixes, forked/recycled generator memories, captured "
+    "frames) are replayed on the real memory.Type and compared read by read with A and G in Coq; wide-frame programs go through "
+    "Sem and the VM model; recursion depth 10^5 (10^6 thorough) runs through the binary. K1 (stale captured frame after growth) is "
+    "a known finding, attributed only to reads G flags as stale.",
+    COMMON_NOTE, "Coq theorems on the memory operations + three-way replay (real memory.Type, Go-algorithm model, specification) of generated histories")
+
 PENDING_REASON = "check under construction in this round (the technique applies; see DESIGN.md section 6); not yet claimed"
 
 
